@@ -12,6 +12,7 @@ CONSTANTS
   MayRevert = {1, 3}
   CheckAdmission = TRUE
   BestChoices = {TRUE}
+  ChildOfBestIsBest = FALSE
   UseConflicts = TRUE
   TxTable <- TxTable5
 INVARIANT AncIsParentWalk
